@@ -65,4 +65,61 @@ example : (statesOf filtrationTimerReach).any (fun s => s.leaf == Filtration.lea
 example : (statesOf tankTimerReach).any (fun s => s.leaf == Tank.leaf_normal && s.pend == [Tank.m_low]) = true := by
   decide +kernel
 
+/-! ## durations: every time-limited phase arms its timeout with the configured duration, every poll with its period
+
+`<actor>Delays` lists every `do_delay` of the source with its duration resolved by the translator on the running code
+(class constants and config.ini values evaluated; `self.__x.total_seconds()` = the duration setting x).  With `timerOK`
+(the timeout carrying the current token exists in every state of the phase) and ε-prompt delivery, a phase entered at t
+is left by t + d + 2ε unless another row fired first. -/
+
+def dur (tbl : List (String × String × Dur)) (handler target : String) : Option Dur :=
+  (tbl.find? fun (h, m, _) => h == handler && m == target).map (·.2.2)
+
+theorem filtration_timeouts :
+    dur filtrationDelays "on_enter_standby_boost" "standby" = some (.setting "boost_duration") ∧
+    dur filtrationDelays "on_enter_overflow_boost" "overflow" = some (.setting "boost_duration") ∧
+    dur filtrationDelays "on_enter_heating_delay_none" "heating_delayed" = some (.halfSeconds Cfg.heating_delay_to_eco) ∧
+    dur filtrationDelays "on_enter_heating_delay_standby" "heating_delayed" = some (.halfSeconds Cfg.heating_delay_to_open) ∧
+    dur filtrationDelays "on_enter_heating_delay_overflow" "heating_delayed" = some (.halfSeconds Cfg.heating_delay_to_open) ∧
+    dur filtrationDelays "on_enter_wash_backwash" "rinse" = some (.setting "backwash_backwash_duration") ∧
+    dur filtrationDelays "on_enter_wash_rinse" "eco" = some (.setting "backwash_rinse_duration") ∧
+    dur filtrationDelays "on_enter_wintering_stir" "wintering_waiting" = some (.halfSeconds Cfg.wintering_duration) ∧
+    dur filtrationDelays "do_repeat_opening" "opened" = some (.halfSeconds 4) ∧
+    dur filtrationDelays "do_repeat_closing" "closed" = some (.halfSeconds 4) ∧
+    dur filtrationDelays "on_enter_eco_compute" "eco_normal" = some (.halfSeconds 10) ∧
+    dur filtrationDelays "on_enter_eco_compute" "eco_waiting" = some (.halfSeconds 10) := by decide
+
+/-- every poll of Filtration re-arms with its own name and a period of 10 s (cover 5 s, wintering 2 min) -/
+theorem filtration_poll_periods :
+    (filtrationDelays.filter fun (h, m, _) => h == m).map (fun (h, _, d) => (h, d)) =
+      [("do_repeat_closing", .halfSeconds 10), ("do_repeat_comfort", .halfSeconds 20), ("do_repeat_eco_normal", .halfSeconds 20),
+       ("do_repeat_eco_tank", .halfSeconds 20), ("do_repeat_eco_waiting", .halfSeconds 20),
+       ("do_repeat_heating_running", .halfSeconds 20), ("do_repeat_opening", .halfSeconds 10),
+       ("do_repeat_overflow_normal", .halfSeconds 20), ("do_repeat_standby_normal", .halfSeconds 20),
+       ("do_repeat_wintering_waiting", .halfSeconds 240)] := by decide
+
+theorem other_timeouts :
+    dur heatingDelays "on_enter_recovering" "recover_done" = some (.halfSeconds Cfg.heating_recover_period) ∧
+    dur disinfectionDelays "on_enter_waiting" "run" = some (.halfSeconds Cfg.disinfection_start_delay) ∧
+    dur disinfectionDelays "on_enter_running_treating" "adjust" = some (.halfSeconds Cfg.disinfection_waiting_delay) ∧
+    dur swimDelays "on_enter_wintering_stir" "wintering_waiting" = some (.halfSeconds Cfg.wintering_swim_duration) ∧
+    dur swimDelays "do_repeat_timed" "do_repeat_timed" = some (.halfSeconds 2) ∧
+    dur swimDelays "do_repeat_continuous" "do_repeat_continuous" = some (.halfSeconds 2) ∧
+    dur swimDelays "do_repeat_wintering_waiting" "do_repeat_wintering_waiting" = some (.halfSeconds 240) ∧
+    dur tankDelays "do_repeat_fill" "do_repeat_fill" = some (.halfSeconds 10) ∧
+    dur tankDelays "do_repeat_low" "do_repeat_low" = some (.halfSeconds 10) ∧
+    dur tankDelays "do_repeat_normal" "do_repeat_normal" = some (.halfSeconds 20) ∧
+    dur tankDelays "do_repeat_high" "do_repeat_high" = some (.halfSeconds 20) ∧
+    dur heatingDelays "do_repeat_waiting" "do_repeat_waiting" = some (.halfSeconds 20) ∧
+    dur heatingDelays "do_repeat_heating" "do_repeat_heating" = some (.halfSeconds 20) ∧
+    dur pwmDelays "do_run" "do_run" = some (.halfSeconds 2) := by decide
+
+/-- no `do_delay` has a duration the translator could not resolve -/
+def allResolved (tbl : List (String × String × Dur)) : Bool :=
+  tbl.all fun (_, _, d) => match d with | .unknown _ => false | _ => true
+
+theorem durations_resolved :
+    (allResolved filtrationDelays && allResolved tankDelays && allResolved heatingDelays && allResolved disinfectionDelays &&
+     allResolved swimDelays && allResolved arduinoDelays && allResolved pwmDelays) = true := by decide
+
 end Poupool.C08
